@@ -1,3 +1,5 @@
 SPECIFICATION Spec
 INVARIANT EmitShape
 CHECK_DEADLOCK FALSE
+CONSTANT MaxCaps = 4
+CONSTANT MaxArgs = 4
